@@ -3,8 +3,9 @@ import BtcwVerif.Lemmas.AddrRows
 # C04 — no secret reaches the database file unencrypted
 
 `run cfg hd ops` is the state reached by the history `ops` together with *every* row any operation handed to the
-database (committed or not).  `cfg` lists the tree-dependent quirks; the fixed tree is `{}` (all `false`), the
-official tree at the time of writing is `{ o1 := true, t1 := true, l1 := true }` (see notes/C04.md).
+database (committed or not).  All theorems are about the official tree (`Cfg.fixed`: every defect of DESIGN §7 that touched this
+property — O1 zero script key, secret taproot rows surviving conversion — is fixed by b81a3ff); the configurations
+with a defect switched back on appear only in the counter-example theorems at the end.
 -/
 set_option linter.unusedSectionVars false
 namespace AddrDerive
@@ -12,29 +13,28 @@ open AddrSym
 
 variable {K P : Type} [DecidableEq K] [DecidableEq P]
 
-/-- No write of any history exposes a secret (extended private keys, address / imported private keys, secret
-    scripts, crypto keys) outside a sealed box — provided the script crypto key is a real key (`o1 = false`). -/
-theorem C04_no_plain_secret (cfg : Cfg) (hd : HD K P) (ops : List (Op K P)) (h : cfg.o1 = false) :
-    ∀ w ∈ (run cfg hd ops).2, w.exposesSecret = false :=
-  fun w hw => ((run_good cfg hd ops w hw).2 h).1
+/-- **No secret in the clear.**  No write of any history exposes a secret (extended private keys, address /
+    imported private keys, secret scripts, crypto keys) outside a box sealed under a real key. -/
+theorem C04_no_plain_secret (hd : HD K P) (ops : List (Op K P)) :
+    ∀ w ∈ (run Cfg.fixed hd ops).2, w.exposesSecret = false :=
+  fun w hw => ((run_good Cfg.fixed hd ops w hw).2 rfl).1
 
-/-- No write of any history shows public key material (xpubs, public keys, address ids, public scripts) in the
-    clear: it only occurs sealed or under `sha256`.  Holds for every configuration. -/
-theorem C04_no_plain_public (cfg : Cfg) (hd : HD K P) (ops : List (Op K P)) :
+/-- **No public key material in the clear** (address-manager namespace): xpubs, public keys, address ids and
+    public scripts only occur sealed or under `sha256`. -/
+theorem C04_no_plain_public (hd : HD K P) (ops : List (Op K P)) :
+    ∀ w ∈ (run Cfg.fixed hd ops).2, w.exposesPublic = false :=
+  fun w hw => (run_good Cfg.fixed hd ops w hw).1
+
+/-- **Right key class.**  Private material is sealed only under private-class keys (`priv`/`script` crypto keys,
+    private master key), never under the public crypto key, the public master key or the all-zero key. -/
+theorem C04_right_key_class (hd : HD K P) (ops : List (Op K P)) :
+    ∀ w ∈ (run Cfg.fixed hd ops).2, w.rightClass = true :=
+  fun w hw => ((run_good Cfg.fixed hd ops w hw).2 rfl).2
+
+/-- the public clause does not depend on any of the (fixed) defects: it holds for every configuration -/
+theorem no_plain_public_any_cfg (cfg : Cfg) (hd : HD K P) (ops : List (Op K P)) :
     ∀ w ∈ (run cfg hd ops).2, w.exposesPublic = false :=
   fun w hw => (run_good cfg hd ops w hw).1
-
-/-- Private material is sealed only under private-class keys (`priv`/`script` crypto keys, private master key),
-    never under the public crypto key or the public master key. -/
-theorem C04_right_key_class (cfg : Cfg) (hd : HD K P) (ops : List (Op K P)) (h : cfg.o1 = false) :
-    ∀ w ∈ (run cfg hd ops).2, w.rightClass = true :=
-  fun w hw => ((run_good cfg hd ops w hw).2 h).2
-
-/-- Part of `C04_no_plain_secret` that holds on the official tree as well (script key = all-zero key): every
-    write that is not an address row of a secret script is free of exposed secrets.  Missing: secret scripts. -/
-theorem C04_no_plain_secret_partial (cfg : Cfg) (hd : HD K P) (ops : List (Op K P)) :
-    ∀ w ∈ (run cfg hd ops).2, w.exposesPublic = false ∧ (cfg.o1 = false → w.exposesSecret = false) :=
-  fun w hw => ⟨(run_good cfg hd ops w hw).1, fun h => ((run_good cfg hd ops w hw).2 h).1⟩
 
 -- ---------------------------------------------------------------------------------------------------------
 -- watching-only conversion
@@ -76,10 +76,10 @@ theorem stripScope_privless (cfg : Cfg) (ht : cfg.t1 = false) (sc : Scope) (sd :
 /-- **Watching-only conversion.**  After `ConvertToWatchingOnly` (from any state of a non-watch-only manager)
     and a restart:
     * no passphrase unlocks the manager, and no `PrivKey()` / secret `Script()` call returns anything;
-    * the database holds no private key of any kind and no secret script (given `t1 = false`, i.e. the
-      taproot rows are stripped too) and no private master / crypto key parameters;
+    * the database holds no private key of any kind, no secret script (taproot ones included) and no private
+      master / crypto key parameters;
     * every address row that existed before still exists (same ids in every scope). -/
-theorem C04_watch_only (cfg : Cfg) (hd : HD K P) (s : State K P) (hw : s.mem.watchOnly = false) (ht : cfg.t1 = false) :
+theorem watch_only_cfg (cfg : Cfg) (hd : HD K P) (s : State K P) (hw : s.mem.watchOnly = false) (ht : cfg.t1 = false) :
     let s1 := (opConvertWO cfg s).1
     let s2 := (opRestart (K := K) s1).1
     (∀ p, (opUnlock cfg hd s2 p).2.1 = .err .watchOnly) ∧
@@ -105,6 +105,20 @@ theorem C04_watch_only (cfg : Cfg) (hd : HD K P) (s : State K P) (hw : s.mem.wat
     exact stripScope_privless cfg ht (a, b) w
   · simp [opRestart, opConvertWO, hw, stripScope, List.map_map, Function.comp_def]
 
+/-- **Watching-only conversion** on the official tree, after any history: see `watch_only_cfg` for the clauses
+    (nothing unlocks, no private accessor answers, nothing private left in the database — secret taproot
+    scripts included —, every address row still there). -/
+theorem C04_watch_only (hd : HD K P) (ops : List (Op K P)) (hw : (run Cfg.fixed hd ops).1.mem.watchOnly = false) :
+    let s := (run Cfg.fixed hd ops).1
+    let s2 := (opRestart (K := K) (opConvertWO Cfg.fixed s).1).1
+    (∀ p, (opUnlock Cfg.fixed hd s2 p).2.1 = .err .watchOnly) ∧
+    (∀ o : KeyObj K P, privKeyOf s2 o = .error .watchOnly) ∧
+    (∀ o : ScrObj, (o.kind = 0 ∨ o.secret = true) → scriptOf Cfg.fixed s2 o = .error .watchOnly) ∧
+    s2.disk.watchOnly = true ∧ s2.disk.rootPriv = none ∧ s2.disk.privPass = none ∧
+    (∀ e ∈ s2.disk.scopes, ScopePrivless e.2) ∧
+    (s2.disk.scopes.map fun e => (e.1, e.2.addrs.map (·.1))) = (s.disk.scopes.map fun e => (e.1, e.2.addrs.map (·.1))) :=
+  watch_only_cfg Cfg.fixed hd _ hw rfl
+
 -- ---------------------------------------------------------------------------------------------------------
 -- counter-examples on the configurations with the defects, and non-vacuity
 
@@ -115,7 +129,7 @@ def demoHD04 : HD (List Nat) (List Nat) :=
 def demo04ImportScript : List (Op (List Nat) (List Nat)) :=
   [.create [0], .unlock 0, .importScript (84, 0) 1 0 true 1]
 
-/-- **Defect O1 (official tree).**  With the script crypto key left all-zero, importing a secret script after
+/-- **Defect O1 (what reverting b81a3ff breaks).**  With the script crypto key left all-zero, importing a secret script after
     unlocking writes a row from which the script can be read without any passphrase. -/
 theorem C04_zero_key_counterexample :
     ((run { o1 := true } demoHD04 demo04ImportScript).2.any Row.exposesSecret) = true := by decide
@@ -126,7 +140,8 @@ example : ((run {} demoHD04 demo04ImportScript).2.any Row.exposesSecret) = false
 def demo04Taproot : List (Op (List Nat) (List Nat)) :=
   [.create [0], .unlock 0, .importScript (86, 0) 1 2 true 1, .convertWO, .restart]
 
-/-- **Defect (official tree): secret taproot script rows survive `ConvertToWatchingOnly`.** -/
+/-- **Defect (what reverting b81a3ff's `deletePrivateKeys` part breaks): secret taproot script rows survive
+    `ConvertToWatchingOnly`.** -/
 theorem C04_taproot_row_counterexample :
     ((run { t1 := true } demoHD04 demo04Taproot).1.disk.scopes.any fun e =>
       e.2.addrs.any fun a => match a.2 with | .scr _ _ true (some _) => true | _ => false) = true := by decide
@@ -135,7 +150,7 @@ example : ((run {} demoHD04 demo04Taproot).1.disk.scopes.any fun e =>
       e.2.addrs.any fun a => match a.2 with | .scr _ _ true (some _) => true | _ => false) = false := by decide
 
 /-- non-vacuity of `C04_watch_only`: a reachable unlocked state with imported key, script and issued addresses -/
-example : (run {} demoHD04 [.create [0], .unlock 0, .next (84, 0) 0 2 false 1, .importPriv (84, 0) 7 true 5,
+example : (run Cfg.fixed demoHD04 [.create [0], .unlock 0, .next (84, 0) 0 2 false 1, .importPriv (84, 0) 7 true 5,
     .importScript (84, 0) 1 1 true 6]).1.mem.watchOnly = false := by decide
 
 /-- the write stream of a history is not empty (the theorems above are not about an empty list) -/
